@@ -4,9 +4,9 @@
 
    `sys N=<sessions> ; <step> ; <step> ; …`   (words separated by single spaces, `;` is a word of its own)
 
-   steps  S<i> SELECT <mb> | S<i> UNSELECT | S<i> APPEND <mb> <flags|-> | S<i> STORE <seqs> <+|-|=>[s] <flags>
+   steps  S<i> SELECT <mb> | S<i> UNSELECT | S<i> CLOSE | S<i> APPEND <mb> <flags|-> | S<i> STORE <seqs> <+|-|=>[s] <flags>
           S<i> EXPUNGE | S<i> COPY <seqs> <mb> | S<i> MOVE <seqs> <mb> | S<i> NOOP | S<i> PROBE
-          C CREATE <mb> <flags|-> | C BOXES m<k> <mb,mb…|-> | C FLAG m<k> <flag> <0|1>
+          C CREATE <mb> <flags|-> | C BOXES m<k> <mb,mb…|-> | C FLAG m<k> <flag> <0|1> | C DELETE m<k>
           X HOLD <i> | X RELEASE <i> <k> (k<0: all, and the hold ends) | X BARRIER
    mailboxes INBOX mb1 mb2 (= 0 1 2); m<k> = the k-th message created in the history (APPEND or C CREATE).
 
@@ -137,6 +137,9 @@ def doStep (d : DState) (w : List String) : Option DState :=
     let id ← parseMsg m
     let mbs ← (splitNonEmpty mbs ",").mapM parseMbox
     some (emit (doOp d (.conn (.boxes id mbs))).1 "-")
+  | ["C", "DELETE", m] => do
+    let id ← parseMsg m
+    some (emit (doOp d (.conn (.delete id))).1 "-")
   | ["C", "FLAG", m, fl, on] => do
     let id ← parseMsg m
     some (emit (doOp d (.conn (.setFlag id fl.toLower (on == "1")))).1 "-")
@@ -150,6 +153,9 @@ def doStep (d : DState) (w : List String) : Option DState :=
       some (emit d' (showOut o))
     | ["UNSELECT"] =>
       let (d', o) := doOp d (.unselect i)
+      some (emit d' (showOut o))
+    | ["CLOSE"] =>
+      let (d', o) := doOp d (.close i)
       some (emit d' (showOut o))
     | ["APPEND", mb, fl] =>
       let mb ← parseMbox mb
@@ -282,6 +288,10 @@ def finalSelection (p : Parsed) (n : Nat) : List (Option String) :=
       match parseSess s with
       | some i => if beforeColon so.2 == "ok" then sel.set i none else sel
       | none => sel
+    | [s, "CLOSE"] =>
+      match parseSess s with
+      | some i => if beforeColon so.2 == "ok" then sel.set i none else sel
+      | none => sel
     | _ => sel) (List.replicate n none)
 
 def judgeC02 (args : List String) : String :=
@@ -355,6 +365,7 @@ def judgeC01 (args : List String) : String :=
               match rest with
               | ["SELECT", _] => if st == "ok" then [s!"RESET{(body.drop 1).toString}"] else []
               | ["UNSELECT"] => if st == "ok" then ["RESET0"] else []
+              | ["CLOSE"] => eventsOfResps body ++ (if st == "ok" then ["RESET0"] else [])
               | ["PROBE"] =>
                 if out == "P:none" then [] else
                 match body.splitOn "/" with
@@ -509,6 +520,11 @@ def judgeC05With (strict : Bool) (args : List String) : String :=
                   { c with cur := (List.range (nat! ((body.drop 1).toString))).map fun _ => { mb := mb, born := c.t } }
                 else c
               | ["UNSELECT"] => if st == "ok" then { c.closeAll with mb := none } else c
+              | ["CLOSE"] =>
+                -- CLOSE expunges silently: no untagged EXPUNGE in its answer, whatever the schedule
+                let c := if hasX body && c.always.isNone then
+                  { c with always := some s!"S{i}: untagged EXPUNGE while answering CLOSE ({st}, step {k})" } else c
+                if st == "ok" then { c.closeAll with mb := none } else c.feed body
               | ["PROBE"] =>
                 if out == "P:none" then c else
                 match body.splitOn "/" with
